@@ -323,6 +323,9 @@ class PeriodicMessageTask:
         """
         self.bus = bus
         self.period = period
+        # Take a copy of the data, update() compares new data against it
+        if data is not None:
+            data = bytes(data)
         self.msg = can.Message(is_extended_id=can_id > 0x7FF,
                                arbitration_id=can_id,
                                data=data, is_remote_frame=remote)
